@@ -5,6 +5,7 @@ impl selection), if-then-else merging at immediate post-dominators, loops by hav
 (never unrolled).  Calls that stay abstract (trait methods on type parameters) become events.
 Nothing of /repo is executed: the interpreter folds MIR over symbolic values.
 """
+import os
 import sys
 import tys as T
 from poly import (Poly, ZERO, ONE, sym_int, sym_bool, b_not, b_and, b_or, b_xor, ge0, eq0,
@@ -148,6 +149,8 @@ class Executor:
         self.frames = {}
         self.root_types = {}
         self.discharged = 0
+        self.back_states = None
+        self.templates = []            # template invariants: functions poly -> poly (candidate facts t(v) >= 0)
         self.no_merge = False          # keep every path separate (used for path-wise summaries)
         self.abstract_defs = set()     # crate bodies deliberately kept abstract (layered proofs)
 
@@ -748,7 +751,13 @@ class Executor:
         tlo, thi = (-(1 << (bits - 1)), (1 << (bits - 1)) - 1) if signed else (0, (1 << bits) - 1)
         if op in ("AddWithOverflow", "SubWithOverflow", "MulWithOverflow"):
             r = pa + pb if op[0] == "A" else (pa - pb if op[0] == "S" else pa * pb)
-            ovf = b_or(b_not(ge0(Poly.const(thi) - r, facts)), b_not(ge0(r - tlo, facts)))
+            if not signed and op[0] in ("A", "M"):
+                # operands of an unsigned type are >= 0: only the upper bound can be exceeded
+                ovf = b_not(ge0(Poly.const(thi) - r, facts))
+            elif not signed:
+                ovf = b_not(ge0(r, facts))
+            else:
+                ovf = b_or(b_not(ge0(Poly.const(thi) - r, facts)), b_not(ge0(r - tlo, facts)))
             return Agg("tuple", None, None, [IntV(bits, signed, p=r), BoolV(ovf)])
         if op in ("Add", "Sub", "Mul", "AddUnchecked", "SubUnchecked", "MulUnchecked"):
             r = pa + pb if op[0] == "A" else (pa - pb if op[0] == "S" else pa * pb)
@@ -1222,12 +1231,52 @@ class Executor:
             for c, x in reversed(list(zip(conds[:-1], vals[:-1]))):
                 v = mk_ite(c, x, v)
             ms.mem[r] = v
+            self.transfer_leaf_facts(ms, v, vals, group)
         if values is not None:
             v = values[-1]
             for c, x in reversed(list(zip(conds[:-1], values[:-1]))):
                 v = mk_ite(c, x, v)
+            self.transfer_leaf_facts(ms, v, values, group)
             return ms, v
         return ms
+
+    def transfer_leaf_facts(self, ms, v, vals, group, depth=0):
+        """value-level facts that survive a merge: for every integer leaf of the merged value the
+        hull of its per-branch ranges (hint) and every template fact t(leaf) >= 0 that each branch
+        entails for its own version of the leaf."""
+        if depth > 5:
+            return
+        if isinstance(v, IntV):
+            if not all(isinstance(x, IntV) for x in vals):
+                return
+            los, his = [], []
+            for x, s_ in zip(vals, group):
+                lo, hi = self.int_range(x, s_.facts)
+                los.append(lo)
+                his.append(hi)
+            if None not in los and None not in his:
+                h = (min(los), max(his))
+                if v.hint is None or h[0] > v.hint[0] or h[1] < v.hint[1]:
+                    v.hint = h if v.hint is None else (max(h[0], v.hint[0]), min(h[1], v.hint[1]))
+                # make the hull available to the linear reasoning too
+                if v.p is not None or v.bv is not None:
+                    pv = v.poly()
+                    if pv.const_value() is None and len(pv.terms) > 1:
+                        ms.facts.add_fact_ge0(pv - v.hint[0])
+                        ms.facts.add_fact_ge0(Poly.const(v.hint[1]) - pv)
+            if self.templates and not v.signed and v.bits <= 32:
+                pv = v.poly()
+                if pv.const_value() is None:
+                    for t in self.templates:
+                        try:
+                            if all(s_.facts.entails_ge0(t(s_.facts.simplify(x.poly())), 2, 1) for x, s_ in zip(vals, group)):
+                                ms.facts.add_fact_ge0(t(pv))
+                        except Exception:
+                            pass
+            return
+        if isinstance(v, Agg) and all(isinstance(x, Agg) and len(x.fields) == len(v.fields) for x in vals):
+            for i, f in enumerate(v.fields):
+                self.transfer_leaf_facts(ms, f, [x.fields[i] for x in vals], group, depth + 1)
 
     def call_single(self, st, fr, callee, subst, args, dest_ty, span):
         """call that must yield one continuing state: several return paths of the callee are
@@ -1249,6 +1298,8 @@ class Executor:
         return "%s@bb%d/%s" % (fr.fn_id, header, fr.fid)
 
     def loop_continue(self, st, fr, header):
+        if self.back_states is not None and self.back_states[0] == self.loop_id(fr, header):
+            self.back_states[1].append(st)
         if self.dry:
             return
         lid = self.loop_id(fr, header)
@@ -1264,30 +1315,46 @@ class Executor:
 
     def do_loop(self, st, fr, header):
         """abstract execution of a natural loop: havoc everything the body may write (found by
-        dry runs to a fixpoint), then run the body once from the header. -> (returns, exits)"""
+        dry runs to a fixpoint), with interval invariants for the written integer locations
+        (joined over the loop entry and the back edges; widened after a few rounds), then run the
+        body once from the header. -> (returns, exits)"""
         lid = self.loop_id(fr, header)
         blocks = fr.cfg.loops[header]
         written = set()
-        self._known_roots = set(self.root_types)
-        for _round in range(8):
+        inv = {}
+        known_roots = set(self.root_types)
+        stable = False
+        dropped = set()
+        tinv = None
+        for _round in range(20):
             probe = st.fork()
-            self.havoc(probe, fr, written, lid)
+            self.havoc(probe, fr, written, lid, inv, tinv)
             log = set()
             saved_log, self.write_log = self.write_log, log
+            saved_back, self.back_states = self.back_states, (lid, [])
             self.dry += 1
             try:
                 self.run_blocks(fr, {header: [probe]}, blocks, header)
             finally:
                 self.dry -= 1
                 self.write_log = saved_log
-            new = self.relevant_writes(st, fr, log)
+                backs = self.back_states[1]
+                self.back_states = saved_back
+            new = self.relevant_writes(st, fr, log, known_roots)
             if saved_log is not None:
                 saved_log |= log
-            if new <= written:
+            new_written = written | new
+            if os.environ.get("AIM_DEBUG_LOOP"):
+                print("loop", lid, "round", _round, "new writes", sorted(self.describe_loc(r, p_) for r, p_ in new - written)[:8],
+                      "inv", {self.describe_loc(r, p_): v for (r, p_), v in list(inv.items())[:6]})
+            new_inv = self.join_invariants(st, new_written, inv, backs, _round, dropped)
+            new_tinv = self.template_invariants(st, new_written, backs, tinv)
+            if new_written == written and new_inv == inv and new_tinv == tinv:
+                stable = True
                 break
-            written |= new
-        else:
-            raise Undecided("loop havoc set did not stabilise in %s" % lid)
+            written, inv, tinv = new_written, new_inv, new_tinv
+        if not stable:
+            raise Undecided("loop havoc set / invariants did not stabilise in %s" % lid)
         entry_values = {}
         if not self.dry:
             for (r, pth) in written:
@@ -1298,10 +1365,11 @@ class Executor:
                     pass
                 finally:
                     self.write_log = saved
-        self.havoc(st, fr, written, lid)
+        self.havoc(st, fr, written, lid, inv, tinv)
         if not self.dry:
             self.loops[lid] = {"cont": [], "fn": fr.fn_id, "header": header, "entry_values": entry_values, "entry_state": None,
                                "havoc": sorted(self.describe_loc(r, p) for r, p in written),
+                               "invariants": {self.describe_loc(r, p): v for (r, p), v in inv.items()},
                                "span": fr.body["blocks"][header]["term"].get("span"), "exits": []}
             st.trace.append(LoopMark(lid))
             self.loops[lid]["entry_state"] = st.fork()
@@ -1310,76 +1378,222 @@ class Executor:
             self.loops[lid]["exits"] = sorted(exits)
         return rets, exits
 
-    def relevant_writes(self, st, fr, log):
+    def template_invariants(self, st, written, backs, prev):
+        """Houdini over the template facts: (location key -> set of template indices) that hold at
+        loop entry and at every back edge of the dry run (assuming the previous candidate set)."""
+        if not self.templates:
+            return None
+        out = {}
+        saved, self.write_log = self.write_log, None
+        try:
+            for (root, path) in written:
+                try:
+                    v0 = self.read(st, root, path)
+                except Undecided:
+                    continue
+                leaves = []
+                self.int_leaves(st, root, path, v0, leaves)
+                for (r, p, v) in leaves:
+                    if v.signed or v.bits > 32:
+                        continue
+                    key = (r, tuple((s_[0], s_[1]) for s_ in p))
+                    cands = set(range(len(self.templates))) if prev is None or key not in prev else set(prev[key])
+                    keep = set()
+                    for ti in cands:
+                        t = self.templates[ti]
+                        ok = st.facts.entails_ge0(t(st.facts.simplify(v.poly())), 2, 1) is not None
+                        if ok:
+                            for bs in backs:
+                                try:
+                                    bv = self.read(bs, r, p)
+                                except Undecided:
+                                    ok = False
+                                    break
+                                if not isinstance(bv, IntV) or bs.facts.entails_ge0(t(bs.facts.simplify(bv.poly())), 2, 1) is None:
+                                    ok = False
+                                    break
+                        if ok:
+                            keep.add(ti)
+                    out[key] = frozenset(keep)
+        finally:
+            self.write_log = saved
+        return out
+
+    def int_range(self, v, facts):
+        lo, hi = facts.simplify(v.poly()).range(facts)
+        if v.hint is not None:
+            lo = v.hint[0] if lo is None else max(lo, v.hint[0])
+            hi = v.hint[1] if hi is None else min(hi, v.hint[1])
+        return lo, hi
+
+    def int_leaves(self, st, root, path, v, out, depth=0):
+        """integer locations inside a written location (structs / tuples are descended)"""
+        if depth > 4:
+            return
+        if isinstance(v, IntV):
+            out.append((root, path, v))
+        elif isinstance(v, Agg) and v.kind in ("adt", "tuple") and (v.kind == "tuple" or (v.name in self.F.adts and self.F.adts[v.name]["kind"] == "struct")):
+            for i, f in enumerate(v.fields):
+                self.int_leaves(st, root, path + (("f", i, None),), f, out, depth + 1)
+
+    THRESHOLDS = [0, 1, 2, 3, 7, 15, 16, 31, 49, 50, 63, 99, 100, 127, 255, 256, 1023, 4095, 65534, 65535, 65536,
+                  (1 << 31) - 1, (1 << 32) - 1, (1 << 63) - 1, (1 << 64) - 1]
+
+    def join_invariants(self, st, written, inv, backs, rnd, dropped):
+        """interval invariant per written integer location: hull of its range at loop entry and
+        at every back edge of the dry run."""
+        out = {}
+        saved, self.write_log = self.write_log, None
+        try:
+            for (root, path) in written:
+                try:
+                    v0 = self.read(st, root, path)
+                except Undecided:
+                    continue
+                leaves = []
+                self.int_leaves(st, root, path, v0, leaves)
+                for (r, p, v) in leaves:
+                    key = (r, tuple((s_[0], s_[1]) for s_ in p))
+                    lo, hi = self.int_range(v, st.facts)
+                    if lo is None or hi is None:
+                        continue
+                    ok = True
+                    for bs in backs:
+                        try:
+                            bv = self.read(bs, r, p)
+                        except Undecided:
+                            ok = False
+                            break
+                        if not isinstance(bv, IntV):
+                            ok = False
+                            break
+                        l2, h2 = self.int_range(bv, bs.facts)
+                        if l2 is None or h2 is None:
+                            ok = False
+                            break
+                        lo, hi = min(lo, l2), max(hi, h2)
+                    if os.environ.get("AIM_DEBUG_LOOP") == "2":
+                        print("   inv-cand", self.describe_loc(r, p), "entry", (lo, hi), "ok", ok, "backs", len(backs))
+                    if not ok:
+                        continue
+                    tlo, thi = (-(1 << (v.bits - 1)), (1 << (v.bits - 1)) - 1) if v.signed else (0, (1 << v.bits) - 1)
+                    if key in dropped:
+                        continue
+                    if key in inv and inv[key] != (lo, hi) and rnd >= 1:
+                        # widening with thresholds: a moving bound jumps to the next threshold
+                        plo, phi = inv[key]
+                        if hi > phi:
+                            hi = min([t for t in self.THRESHOLDS if t >= hi] + [thi])
+                        if lo < plo:
+                            lo = max([-t - 1 for t in self.THRESHOLDS if -t - 1 <= lo] + [tlo]) if lo < 0 else 0
+                        if rnd >= 14:
+                            dropped.add(key)
+                            continue
+                    if lo <= tlo and hi >= thi:
+                        dropped.add(key)
+                        continue
+                    out[key] = (max(lo, tlo), min(hi, thi))
+        finally:
+            self.write_log = saved
+        return out
+
+    def relevant_writes(self, st, fr, log, known_roots=()):
         """locations written in the loop that exist outside the loop body's own callee frames"""
         out = set()
         for root, path in log:
             if root[0] == "L" and root[1] != fr.fid and root not in st.mem:
                 continue  # local of a frame created inside the loop
-            if root[0] == "O" and root not in st.mem and root not in self._known_roots:
+            if root[0] == "O" and root not in st.mem and root not in known_roots:
                 continue  # object first seen inside the loop (fresh per iteration)
             out.add((root, path))
         return out
 
-    def havoc(self, st, fr, written, lid):
+    def havoc(self, st, fr, written, lid, inv=None, tinv=None):
         # coarsen: if a prefix is written, drop longer paths
         items = sorted(written, key=lambda rp: len(rp[1]))
         done = []
+        inv = inv or {}
         for root, path in items:
             if any(r == root and path[:len(p)] == p for r, p in done):
                 continue
             done.append((root, path))
             name = "loop:%s" % (self.loc_name(fr, root, path),)
-            if root[0] == "L":
-                if root[1] == fr.fid:
-                    ty = self.local_ty(fr, root[2])
-                else:
-                    ty = None
-            else:
-                ty = None
-            if ty is None:
-                cur0 = st.mem.get(root)
-                ty = getattr(cur0, "ty", None) if isinstance(cur0, (SymV, Agg)) else None
-            # type of the location: walk from the root type
-            lty = self.loc_type(st, fr, root, path, ty)
-            if lty is None:
-                # unknown type: drop to a coarser location we can type
-                if root not in st.mem and root not in self.const_mem:
-                    continue
-                cur = self.read(st, root, path)
-                new = self.havoc_like(cur, name)
-            else:
-                new = self.mk_sym(lty, self.fresh(name))
-                if isinstance(new, Ptr):
-                    # a havoced pointer local: keep pointing where it pointed if it was a pointer
-                    cur = st.mem.get(root) if not path else None
-                    if isinstance(cur, Ptr):
-                        new = cur
             saved, self.write_log = self.write_log, None
             try:
-                self.write(st, root, path, new)
-            except Undecided:
-                # cannot write at this granularity: havoc the whole root
-                cur = st.mem.get(root)
-                if cur is not None:
-                    st.mem[root] = self.havoc_like(cur, name)
+                cur = None
+                try:
+                    if root in st.mem or root in self.const_mem or root[0] == "O":
+                        cur = self.read(st, root, path)
+                except Undecided:
+                    cur = None
+                if cur is not None and cur is not Undef:
+                    new = self.havoc_like(cur, name, inv, root, tuple((s_[0], s_[1]) for s_ in path))
+                else:
+                    ty = self.local_ty(fr, root[2]) if (root[0] == "L" and root[1] == fr.fid) else None
+                    lty = self.loc_type(st, fr, root, path, ty)
+                    if lty is None:
+                        continue
+                    new = self.mk_sym(lty, self.fresh(name))
+                try:
+                    self.write(st, root, path, new)
+                except Undecided:
+                    cur = st.mem.get(root)
+                    if cur is not None:
+                        st.mem[root] = self.havoc_like(cur, name)
+                if tinv:
+                    leaves = []
+                    try:
+                        self.int_leaves(st, root, path, self.read(st, root, path), leaves)
+                    except Undecided:
+                        leaves = []
+                    for (r, p_, v_) in leaves:
+                        for ti in tinv.get((r, tuple((s_[0], s_[1]) for s_ in p_)), ()):
+                            st.facts.add_fact_ge0(self.templates[ti](v_.poly()))
             finally:
                 self.write_log = saved
 
-    def havoc_like(self, v, name):
+    def closure_env_pure(self, v):
+        """does the closure body leave its captured environment unmodified?"""
+        rec = self.F.bodies.get(v.name)
+        if rec is None:
+            return False
+        for blk in rec["body"]["blocks"]:
+            for s_ in blk["stmts"]:
+                if s_["k"] == "assign" and s_["place"]["local"] == 1 and s_["place"]["proj"]:
+                    return False
+                if s_["k"] == "assign" and s_["rv"]["k"] == "ref" and s_["rv"].get("mut") and s_["rv"]["place"]["local"] == 1:
+                    return False
+        return True
+
+    def havoc_like(self, v, name, inv=None, root=None, path=()):
+        """fresh unknown value of the same shape (struct / tuple / iterator-adaptor structure kept,
+        enum variants forgotten); integer leaves get the interval invariant if one is known."""
         if isinstance(v, IntV):
+            rng = inv.get((root, path)) if inv and root is not None else None
+            if rng is not None:
+                return IntV(v.bits, v.signed, p=Poly.atom(("r", self.fresh(name), rng[0], rng[1])))
             return IntV(v.bits, v.signed, p=sym_int(self.fresh(name), v.bits, v.signed))
         if isinstance(v, BoolV):
             return BoolV(sym_bool(self.fresh(name)))
         if isinstance(v, Agg):
-            if v.ty is not None and v.kind == "adt":
+            if v.kind == "closure":
+                if self.closure_env_pure(v):
+                    return v
+                return Agg(v.kind, v.name, v.variant, [self.havoc_like(f, "%s.up%d" % (name, i)) for i, f in enumerate(v.fields)], v.ty, v.extra)
+            is_struct = v.kind in ("tuple", "array") or (v.kind == "adt" and (
+                (v.name in self.F.adts and self.F.adts[v.name]["kind"] == "struct") or v.name.startswith(("core::iter::", "core::slice::", "core::array::"))
+                or v.name == "heapless::vec::Vec"))
+            if is_struct:
+                return Agg(v.kind, v.name, v.variant,
+                           [self.havoc_like(f, "%s.%d" % (name, i), inv, root, path + (("f", i),)) for i, f in enumerate(v.fields)], v.ty, v.extra)
+            if v.ty is not None:
                 return self.mk_sym(v.ty, self.fresh(name))
             return Agg(v.kind, v.name, v.variant, [self.havoc_like(f, "%s.%d" % (name, i)) for i, f in enumerate(v.fields)], v.ty, v.extra)
         if isinstance(v, SymV):
             return SymV(v.ty, self.fresh(name))
         if isinstance(v, ITE):
-            return self.havoc_like(v.a, name)
-        if isinstance(v, Ptr):
+            return self.havoc_like(v.a, name, inv, root, path)
+        if isinstance(v, (Ptr, FnV)):
             return v
         if isinstance(v, Term):
             return SymV(v.ty, self.fresh(name)) if v.ty is not None else v
